@@ -21,8 +21,9 @@ UNIT = Unit(
     describe="separate::check_package and separate::build_package from the call of the type checker on (fragments): whenever either succeeds, the interface it returns (for "
              "build: the one embedded in the core unit) is the usable interface unit of THE SAME four things — the package name, what the type checker exports, its HIR "
              "interface, the dependency hashes recorded before — so `check` and `build` of the same sources against the same interface files emit the same interface "
-             "(lemma_check_build_same_interface); and neither succeeds when the type checker reports errors",
-    trusted=["FRAGMENTS: the part in front (reading the sources, loading the dependencies' interfaces) is U-DEPREC's; Core generation in build_package is the stub core_of",
+             "(lemma_check_build_same_interface); neither succeeds when the type checker reports errors, and build does not succeed when Core generation reports "
+             "errors (a package the whole-program driver rejects at that stage is not accepted by `build`)",
+    trusted=["FRAGMENTS: the part in front (reading the sources, loading the dependencies' interfaces) is U-DEPREC's; in build_package the construction of the match compiler's environment (Gensym::new, GlobalTypeEnv::new, the apply_to calls) is the stub match_env; compile_match::compile_file is a stub whose errors are a deterministic uninterpreted function of that environment and the typed tree",
              "typecheck_single_package is a stub: a DETERMINISTIC uninterpreted function of its inputs (that is C13); InterfaceUnit::new / CoreUnit::new appear with the "
              "contracts U-ART proves (contract-only)",
              "NOT claimed: the rest of C14 — that separately built and linked packages behave like the whole program compiled at once"],
@@ -33,9 +34,13 @@ UNIT = Unit(
            contract=POST.replace("{U}", "r->Ok_0")),
         Fn(file=S, name="build_package", rename="build_tail", ret="r", cut_from="let (tast, exports, hir_interface, diagnostics) =",
            sig="fn build_tail(package: &String, files: SourceFiles, sources: Vec<String>, deps_interfaces: StrMap<PackageInterface>, deps_envs: StrMap<GlobalTypeEnv>, dep_hashes: DepMap, dep_units: Vec<InterfaceUnit>) -> Result<CoreUnit, CompilationError>",
-           pre_rewrites=[(re.compile(r"let gensym = Gensym::new\(\);.*?let mut unit = CoreUnit::new\(", re.S),
-                          "let core_ir = match core_of(package, &interface, &dep_units, &tast) { Ok(c) => c, Err(e) => { return Err(e); } };\n    let mut unit = CoreUnit::new(", 1)],
-           rewrites=RW, obligation="build: Ok only with a core unit whose embedded interface is THE interface of these inputs; never Ok when the type checker reports errors",
-           contract=POST.replace("{U}", "r->Ok_0.interface")),
+           pre_rewrites=[(re.compile(r"let gensym = Gensym::new\(\);.*?interface\.exports\.apply_to\(&mut env\);", re.S),
+                          "let (gensym, env) = match_env(&interface, &dep_units);", 1),
+                         ("let mut compile_diagnostics = Diagnostics::new();", "let mut compile_diagnostics = compile_diagnostics_new();", 1),
+                         ("crate::compile_match::compile_file(", "compile_file(", 1),
+                         (re.compile(r"CompilationError::Compile \{\s*diagnostics: compile_diagnostics,?\s*\}"), "compile_stage_error(compile_diagnostics)", "*")],
+           rewrites=RW, obligation="build: Ok only with a core unit whose embedded interface is THE interface of these inputs; never Ok when the type checker — or Core generation (the match compiler) — reports errors",
+           contract=POST.replace("{U}", "r->Ok_0.interface") +
+                    "\n        cm_fails(env_of(tc_exports(package@, files, deps_interfaces@, deps_envs@), dep_units@), tc_tast(package@, files, deps_interfaces@, deps_envs@)) ==> r is Err,"),
     ],
 )
